@@ -93,16 +93,17 @@ struct Sink {
     std::string trace;
     std::unordered_map<long long, int> rid, mid;
     int nextR = 1, nextM = 1;
-    long events = 0;
+    long events = 0, callEvents = 0;
     // measurement on the document entity's reader (the first reader created in the call)
     int mainR = 0;
     long long readSoFar = 0, gained = 0;
     std::vector<long long> rawStarts, charStarts;     // byte offset / character offset at which a new batch began
     long long pendingRawStart = -1;
+    long long depthGuard = 0;            // > 0: a reader stack deeper than this ends the process (exit 97) before memory is exhausted
 
     void beginCall(const std::string& callLine) {
         rid.clear(); mid.clear(); nextR = 1; nextM = 1; mainR = 0; readSoFar = 0; gained = 0;
-        rawStarts.clear(); charStarts.clear();
+        rawStarts.clear(); charStarts.clear(); callEvents = 0;
         if (record) { trace += callLine; trace += '\n'; }
     }
     void endCall(const std::string& retLine) { if (record) { trace += retLine; trace += '\n'; } }
@@ -147,6 +148,7 @@ struct Sink {
             rid.erase(v[0]);
             len = snprintf(buf, sizeof buf, "{\"e\":\"RdrDel\",\"r\":%d}", r);
         } else if (e == "Push") {
+            if (depthGuard > 0 && v[7] > depthGuard) { fprintf(stderr, "reader stack depth %lld exceeds the guard %lld: unbounded entity recursion\n", v[7], depthGuard); _exit(97); }
             len = snprintf(buf, sizeof buf, "{\"e\":\"Push\",\"m\":%d,\"r\":%d,\"num\":%lld,\"ent\":%lld,\"type\":%lld,\"adopt\":%lld,\"ok\":%lld,\"depth\":%lld}",
                            M(v[0]), R(v[1], false), v[2], v[3], v[4], v[5], v[6], v[7]);
         } else if (e == "Pop") {
@@ -159,7 +161,7 @@ struct Sink {
             return;     // another hook family
         }
         (void)isMgr; (void)keys; (void)n;
-        if (record && len > 0) { trace.append(buf, (size_t)len); trace += '\n'; }
+        if (record && len > 0 && ++callEvents <= 300000) { trace.append(buf, (size_t)len); trace += '\n'; }   // a runaway call cannot fill the disk
     }
     // did a new raw / character batch begin strictly inside [b0, b0+nb) / [c0, c0+nc) ?
     bool rawInside(long long b0, long long nb) const { for (auto s : rawStarts) if (s > b0 && s < b0 + nb) return true; return false; }
